@@ -317,7 +317,7 @@ SEND = f"{ASH}:AshProtocol._send_data_frame"
 ACK_OUTCOMES = Outcomes(OK(True), RAISE("NotAcked"), RAISE("NcpFailure"), RAISE("TimeoutError"), RAISE("CancelledError"))
 
 
-def explore_send(ctx, tx_seq=5, outcomes=ACK_OUTCOMES, states=("CONNECTED", "FAILED"), extra_models=()):
+def explore_send(ctx, tx_seq=5, outcomes=ACK_OUTCOMES, states=("CONNECTED", "FAILED"), extra_models=(), rx_values=None):
     repo = ctx.repo
     f = repo.func(SEND)
     cls = ash_cls(ctx)
@@ -326,9 +326,12 @@ def explore_send(ctx, tx_seq=5, outcomes=ACK_OUTCOMES, states=("CONNECTED", "FAI
             inline=inline_ash(stop=("_write_frame", "_cancel_pending_data_frames", "_change_ack_timeout")))
 
     def setup():
-        s = self_obj(cls, {"_tx_seq": tx_seq, "_rx_seq": Sym("rx"), "_pending_data_frames": {},
+        vol = {"_ncp_state": [ns[n] for n in states]}
+        if rx_values:
+            vol["_rx_seq"] = list(rx_values)  # frames from the NCP are accepted between the attempts: the expected number moves on
+        s = self_obj(cls, {"_tx_seq": tx_seq, **({} if rx_values else {"_rx_seq": Sym("rx")}), "_pending_data_frames": {},
                            "_t_rx_ack": Sym("t_rx_ack")},
-                     volatile={"_ncp_state": [ns[n] for n in states]})
+                     volatile=vol)
         return s, {"frame": frame_obj(ctx, "DataFrame", frm_num=Sym("caller.frm_num"), re_tx=Sym("caller.re_tx"), ack_num=Sym("caller.ack_num"),
                                       ezsp_frame=Sym("payload"))}
 
@@ -493,10 +496,33 @@ def r05_send_skeleton(ctx):
     ctx.sample({"paths": len(paths), "example": paths[len(paths) // 2].trace(40)})
 
 
-@rule("R05.2", ["C05", "C01"], "T-FUN", floor=16)
+def _fresh_ack_numbers(ctx):
+    """Every (re)transmission carries the acknowledgement number that is current when it is written: the expected number is
+    made to change between attempts (the NCP's own frames keep arriving and are accepted while the host retransmits) and each
+    written DATA frame must carry the value read in the very event-loop turn of that write - a frame built once and repeated
+    with only the reTx flag flipped acknowledges less than the host has already acknowledged, which a validating NCP rejects."""
+    f, px, paths, ns = explore_send(ctx, 5, Outcomes(OK(True), RAISE("TimeoutError")), states=("CONNECTED",), rx_values=(3, 6))
+    n_w = 0
+    for p in paths:
+        for k, w in enumerate(send_writes(p)):
+            fr = w.args[0] if w.args else None
+            if not is_frame(fr, "DataFrame"):
+                continue
+            n_w += 1
+            cur = next((v for key, v in p.assumes if key == f"volatile:self._rx_seq@{w.epoch}"), None)
+            got = fr.fields.get("ack_num")
+            ctx.require(cur is not None and got == cur, "_send_data_frame:stale-ack-number",
+                        f"write #{k} of one send carries ackNum {got!r}; the expected number " +
+                        (f"read in that turn is {cur!r}" if cur is not None else "is not read in the turn of the write (a value from an earlier attempt is repeated)"),
+                        func=f, trace=p.trace(20), props=("C05", "C01", "C09"))
+    ctx.anchor(n_w >= 4, "writes examined for fresh acknowledgement numbers")
+
+
+@rule("R05.2", ["C05", "C01", "C09"], "T-FUN", floor=16)
 def r05_2(ctx):
     """Frame numbers are consecutive modulo 8: for every value 0..7 of the send counter the send uses exactly
     that number and stores (value + 1) % 8; the counter is written only by initialisers and explored functions."""
+    _fresh_ack_numbers(ctx)
     for t in range(8):
         f, px, paths, ns = explore_send(ctx, tx_seq=t, outcomes=Outcomes(OK(True)), states=("CONNECTED",))
         ctx.paths += len(paths)
@@ -507,14 +533,14 @@ def r05_2(ctx):
             ok = (len(ws) == 1 and num == t and p.store["self"].get("_tx_seq") == (t + 1) % 8)
             ctx.require(ok, f"tx_seq={t}", f"send counter {t}: frame number {num!r}, "
                         f"counter becomes {p.store['self'].get('_tx_seq')!r} (must be {t} and {(t + 1) % 8})",
-                        func=f, trace=p.trace())
+                        func=f, trace=p.trace(), props=("C05", "C01"))
         ctx.run.shared.setdefault("tx_seq_visited", set()).update(px.visited)
     # RSTACK handling also (re)sets the counter: explore it here so that this rule does not depend on another rule's run
     rs = ctx.repo.func(f"{ASH}:AshProtocol.rstack_frame_received")
     pxr = PX(ctx.repo, inline=inline_ash(stop=("_write_frame", "_cancel_pending_data_frames", "_change_ack_timeout")))
     pxr.explore(rs, lambda: (self_obj(ash_cls(ctx), {"_pending_data_frames": {}}), {"frame": frame_obj(ctx, "RStackFrame", reset_code=Sym("code"), version=2)}))
     ctx.run.shared["tx_seq_visited"].update(pxr.visited)
-    confined_writers(ctx, "_tx_seq", ctx.run.shared["tx_seq_visited"], {"AshProtocol.__init__"}, "R05.1/R05.2/R04.3")
+    confined_writers(ctx, "_tx_seq", ctx.run.shared["tx_seq_visited"], {"AshProtocol.__init__"}, "R05.1/R05.2/R04.3", props=("C05", "C01"))
 
 
 @rule("R05.4", ["C05"], "T-BND", floor=20)
